@@ -20,7 +20,7 @@ PROPERTIES: dict[str, dict] = {
         "assumptions": COMMON_ASSUMPTIONS + ["bliss returns a canonical form for colour-isomorphic graphs", "igraph index convention table per version (spec.py)"],
     },
     "C02": {
-        "rules": ["R-CODEC", "R-KEYS", "R-ELEMTABLE", "R-LEX", "R-ATTRREAD", "R-REBUILD", "R-EXPRESS", "R-SYMZ", "R-RECMERGE", "R-INVCODE", "R-SUPERSEDE", "R-ATOMLINE"],
+        "rules": ["R-CODEC", "R-KEYS", "R-ELEMTABLE", "R-LEX", "R-ATTRREAD", "R-REBUILD", "R-EXPRESS", "R-SYMZ", "R-RECMERGE", "R-INVCODE", "R-SUPERSEDE", "R-ATOMLINE", "R-SERIALSAMPLE"],
         "technique": "structural losslessness rules on serializer/parser + automata check of unique tokenisation",
         "explanation": "Necessary conditions of injectivity, each decided over all code paths: every edge / labelled atom / atom is emitted "
                        "(no filter), indices are label+1 and decoded as index-1, numbering is by atomic number first so the formula identifies "
@@ -30,7 +30,7 @@ PROPERTIES: dict[str, dict] = {
         "assumptions": COMMON_ASSUMPTIONS,
     },
     "C03": {
-        "rules": ["R-CODEC", "R-KEYS", "R-ELEMTABLE", "R-GRAM3", "R-SHAPE", "R-ZERO", "R-BLISS", "R-FLOW-CANON", "R-FLOW-SERIAL", "R-BIJ", "R-REBUILD", "R-EXPRESS", "R-ATTRREAD", "R-REJECT", "R-GLOBAL", "R-RECMERGE", "R-PARSEPATH"],
+        "rules": ["R-CODEC", "R-KEYS", "R-ELEMTABLE", "R-GRAM3", "R-SHAPE", "R-ZERO", "R-BLISS", "R-FLOW-CANON", "R-FLOW-SERIAL", "R-BIJ", "R-REBUILD", "R-EXPRESS", "R-ATTRREAD", "R-REJECT", "R-GLOBAL", "R-RECMERGE", "R-PARSEPATH", "R-SERIALSAMPLE"],
         "thorough_rules": ["R-LIBSRC"],
         "technique": "codec-agreement rules + language inclusion (emitted ⊆ grammar) by automata + the C01 flow proof for the fixed-point half",
         "explanation": "Serializer/parser agreement (offsets, key tables, numbering by atomic number, stable sort), emitted strings are sentences of the "
@@ -49,7 +49,7 @@ PROPERTIES: dict[str, dict] = {
         "assumptions": COMMON_ASSUMPTIONS + ["igraph index convention table per version (spec.py)"],
     },
     "C05": {
-        "rules": ["R-SHAPE", "R-LAYOUT", "R-ZERO", "R-FLOW-SERIAL", "R-ELEMTABLE", "R-GRAM3", "R-CODEC", "R-REBUILD", "R-EXPRESS", "R-SYMZ"],
+        "rules": ["R-SHAPE", "R-LAYOUT", "R-ZERO", "R-FLOW-SERIAL", "R-ELEMTABLE", "R-GRAM3", "R-CODEC", "R-REBUILD", "R-EXPRESS", "R-SYMZ", "R-SERIALSAMPLE"],
         "technique": "string-shape abstract interpretation of the serializer + regular-language inclusion in the EBNF automaton",
         "explanation": "The serializer's writer functions are evaluated symbolically (all paths) into a regular expression over grammar tokens and "
                        "typed integer holes; inclusion in L_EBNF(tucan) is decided by a product walk. Value holes are positive by R-ZERO; ascending / "
@@ -84,7 +84,7 @@ PROPERTIES: dict[str, dict] = {
         "assumptions": COMMON_ASSUMPTIONS + ["CTfile V2000 column layout and charge codes (spec.py)"],
     },
     "C09": {
-        "rules": ["R-LEN", "R-WRAP", "R-FIELDS", "R-NUMTEXT", "R-FLOW-SERIAL", "R-FLOW-CANON", "R-ORDERING", "R-INDEXSPACE", "R-GRAPHBUILD", "R-BONDTYPE", "R-CODEC"],
+        "rules": ["R-LEN", "R-WRAP", "R-FIELDS", "R-NUMTEXT", "R-FLOW-SERIAL", "R-FLOW-CANON", "R-ORDERING", "R-INDEXSPACE", "R-GRAPHBUILD", "R-BONDTYPE", "R-CODEC", "R-WRITESAMPLE"],
         "technique": "interval analysis of emitted line lengths + writer/reader constant and field-position agreement",
         "explanation": "Sound interval proof that every appended line is <= 79 characters; wrap prefix / offset / continuation character agree between "
                        "writer and reader; the writer's line templates put fields where the reader subscripts them.",
